@@ -339,13 +339,18 @@ structure NicObs where
 
 def dirDict {α} (a b : α) : List (Key × α) := [(.s "inbound", a), (.s "outbound", b)]
 
+/-- the distinct entries of a port list (a repeated port is the same dictionary key, assigned the same value twice) -/
+def dedupN : List Nat → List Nat
+  | [] => []
+  | x :: xs => if x ∈ xs then dedupN xs else x :: dedupN xs
+
 /-- one protocol entry of `TRAFFIC` built from a per-direction leaf maker -/
 def trafficEntries {α} (dict : List (Key × α) → α) (traffic : List (String × List Nat))
     (leaf : String → Option Nat → Bool → α) : List (Key × α) :=
   traffic.map (fun (pp : String × List Nat) =>
     (Key.s pp.1,
       if pp.1 = "icmp" then dict (dirDict (leaf pp.1 none true) (leaf pp.1 none false))
-      else dict (pp.2.map (fun port => (Key.n port, dict (dirDict (leaf pp.1 (some port) true) (leaf pp.1 (some port) false)))))))
+      else dict ((dedupN pp.2).map (fun port => (Key.n port, dict (dirDict (leaf pp.1 (some port) true) (leaf pp.1 (some port) false)))))))
 
 def NicObs.default (o : NicObs) : Val :=
   .dict ((.s "nic_status", .int 0) ::
@@ -379,20 +384,21 @@ def NicState.amount (n : NicState) (proto : String) (port : Option Nat) (inbound
 def NicObs.trafficLeaf (n : NicState) (proto : String) (port : Option Nat) (inbound : Bool) : Val :=
   utilBin trafficClamp (n.amount proto port inbound) n.speed
 
-/-- `capture` is the class attribute `NICObservation.capture_nmne`. -/
+/-- `capture` is the class attribute `NICObservation.capture_nmne`.  (The source inserts `TRAFFIC` before `NMNE`; key order is
+not observable through `contains` or `flatten`, so the model keeps the order of `space`.) -/
 def NicObs.val (capture : Bool) (o : NicObs) (st : SimState) : Val :=
   match o.find st with
   | none => o.default
   | some n =>
     .dict ((.s "nic_status", .int (if n.enabled then nicEnabledCode else nicDisabledCode)) ::
-      (optEntry (!o.traffic.isEmpty) (.s "TRAFFIC") (.dict (trafficEntries Val.dict o.traffic (NicObs.trafficLeaf n))) ++
-       optEntry o.includeNmne (.s "NMNE")
+      (optEntry o.includeNmne (.s "NMNE")
          (if capture then
             match n.nmne with
             | none => .raised
             | some (i, u) => .dict (dirDict (.int (categorise o.thr ((i : Int) - o.lastIn)))
                                            (.int (categorise o.thr ((u : Int) - o.lastOut))))
-          else .dict (dirDict (.int 0) (.int 0)))))
+          else .dict (dirDict (.int 0) (.int 0))) ++
+       optEntry (!o.traffic.isEmpty) (.s "TRAFFIC") (.dict (trafficEntries Val.dict o.traffic (NicObs.trafficLeaf n)))))
 
 def NicObs.next (capture : Bool) (o : NicObs) (st : SimState) : NicObs :=
   match o.find st with
